@@ -138,7 +138,7 @@ def _compdb(scratch, extra_defs=(), cmake_defs=()):
         if not any(x.startswith('-std=') for x in keep):
             keep.append('-std=gnu++20')
         # release builds (the baseline is RelWithDebInfo) compile assert() away: analyse what ships
-        keep += ['-DNDEBUG', '-D' + GUARD] + ['-D' + d for d in extra_defs]
+        keep += ['-DNDEBUG', '-D' + GUARD] + [('-U' + d[1:]) if d.startswith('!') else ('-D' + d) for d in extra_defs]
         flags = flags or keep
         out.append({'directory': scratch, 'file': f,
                     'arguments': ['clang++'] + keep + ['-resource-dir=' + RESOURCE_DIR, '-fsyntax-only', '-w', f]})
